@@ -74,6 +74,8 @@ class Program:
         self.enum_fields = {}     # (enum, variant) -> [field names] for struct-like variants
         self.resolve_cache = {}
         self.const_cache = {}
+        self.adt_cache = {}
+        self.pconst_cache = {}
         self._index()
         self._parse_source_types()
 
@@ -674,7 +676,20 @@ class Machine:
         if c == '(' and s.endswith(')'):
             return Tup(self.const(x, fr) for x in split_top(s[1:-1]))
         # path constants: promoted, associated consts, statics, unit variants, fn items
-        return self.path_const(s, fr)
+        key = (s, fr.fn.name if (fr is not None and 'promoted[' in s) else None)
+        ent = self.prog.pconst_cache.get(key)
+        if ent is not None:
+            k, v = ent
+            if k == 'adt': return Adt(v[0], v[1], [])
+            return v
+        v = self.path_const(s, fr)
+        if isinstance(v, (FnItem, int, bool)) or (isinstance(v, Opaque) and v.payload is None):
+            self.prog.pconst_cache[key] = ('val', v)
+        elif isinstance(v, Adt) and not v.fields and isinstance(v.variant, int):
+            self.prog.pconst_cache[key] = ('adt', (v.name, v.variant))
+        elif isinstance(v, (Ref, Str)):
+            self.prog.pconst_cache[key] = ('val', v)
+        return v
 
     def static_cell(self, name):
         cc = self.prog.const_cache
@@ -793,6 +808,14 @@ class Machine:
         raise EncoderGap('array length ' + s)
 
     def mk_adt(self, path, fields):
+        ent = self.prog.adt_cache.get(path)
+        if ent is not None:
+            return Adt(ent[0], ent[1], fields)
+        a = self._mk_adt(path, fields)
+        if isinstance(a.variant, int): self.prog.adt_cache[path] = (a.name, a.variant)
+        return a
+
+    def _mk_adt(self, path, fields):
         p2 = strip_generics(path)
         if p2.startswith('<'):
             j = find_top(p2, 1, '>')
